@@ -6,6 +6,7 @@ import (
 	"context"
 	"fmt"
 	"math"
+	"sort"
 	"strings"
 	"testing"
 
@@ -624,6 +625,7 @@ func runAndCompare(rt *rapid.T, cse *ev.Case, c *cs.Chain, L []item) (nontriv bo
 		rt.Fatalf("VIOLATION C07: included (%d) and failed (%d) lists are not an order-preserving partition of the %d submitted transactions", len(out.Results.Txs), len(out.Results.Failed), len(L))
 	}
 	propScan, _ := c.Scan() // working state of the proposer after ApplyBlock
+	propTracker := trackerText(c.FSM.VerifSlashTracker())
 	// replica: exactly the included transactions, no failure tolerated
 	blk := &lib.Block{BlockHeader: out.Header, Transactions: append([][]byte(nil), out.Results.Txs...)}
 	hdr2, res2, e2 := fork.Use().FSM.ApplyBlock(context.Background(), blk, false)
@@ -632,6 +634,7 @@ func runAndCompare(rt *rapid.T, cse *ev.Case, c *cs.Chain, L []item) (nontriv bo
 		rt.Fatalf("VIOLATION C07: replica-mode ApplyBlock of exactly the included transactions FAILED: %s; block [%s]", errText(e2), strings.Join(labels, " | "))
 	}
 	repScan, _ := fork.Scan()
+	repTracker := trackerText(fork.FSM.VerifSlashTracker())
 	fork.FSM.Reset()
 	fork.Close()
 	if len(res2.Failed) != 0 || len(res2.Txs) != len(out.Results.Txs) {
@@ -640,6 +643,12 @@ func runAndCompare(rt *rapid.T, cse *ev.Case, c *cs.Chain, L []item) (nontriv bo
 	if d := cs.DiffScans(propScan, repScan); d != "" {
 		rt.Fatalf("VIOLATION C07: state after the proposer's block (with %d failing transactions) differs from the state after executing only the %d included ones: %s\n   block [%s]", len(out.Results.Failed), len(out.Results.Txs), d, strings.Join(labels, " | "))
 	}
+	// the per-block slash tracker (what later transactions of this block and the end-block logic observe), compared deep
+	if propTracker != repTracker {
+		rt.Fatalf("VIOLATION C07: slash tracker after the proposer's block (with %d failing transactions) differs from the tracker after executing only the included ones:\n   proposer %s\n   replica  %s\n   block [%s]",
+			len(out.Results.Failed), propTracker, repTracker, strings.Join(labels, " | "))
+	}
+	cse.ClassIf(propTracker != "{}", "slash-tracker-non-empty")
 	if !bytes.Equal(hdr2.Hash, out.Header.Hash) {
 		rt.Fatalf("VIOLATION C07: header differs although the state scan is equal: proposer %x replica %x (state root %x / %x, tx root %x / %x)", out.Header.Hash, hdr2.Hash, out.Header.StateRoot, hdr2.StateRoot, out.Header.TransactionRoot, hdr2.TransactionRoot)
 	}
@@ -657,4 +666,19 @@ func runAndCompare(rt *rapid.T, cse *ev.Case, c *cs.Chain, L []item) (nontriv bo
 		rt.Fatalf("VIOLATION C07: committed state differs from the working state after ApplyBlock: %s", d)
 	}
 	return nontriv
+}
+
+// trackerText renders the slash tracker canonically (validator -> committee -> percent), ignoring entries without a slash (reading
+// the tracker creates empty inner maps).
+func trackerText(t map[string]map[uint64]uint64) string {
+	var parts []string
+	for addr, m := range t {
+		for chain, pct := range m {
+			if pct != 0 {
+				parts = append(parts, fmt.Sprintf("%s/%d=%d%%", addr[:8], chain, pct))
+			}
+		}
+	}
+	sort.Strings(parts)
+	return "{" + strings.Join(parts, " ") + "}"
 }
